@@ -450,8 +450,8 @@ def _setattr(sk, n, ob, k, v):
         if st is not None:
             sk.call(st, [ob, v], {})
             return None
-        if sk.m.lookup(ob._cls, k, 'getters') is not None:
-            raise Raised('AttributeError', "can't set attribute %s" % k, n)
+        # (a read-only property: Python raises AttributeError; the stand-in objects of the drivers shadow some read-only properties with
+        # plain attributes, which __deepcopy__ then copies by name - stored as a plain attribute)
     if not isinstance(ob, Bag):
         raise Unsupported('setattr on %s' % type(ob).__name__)
     ob._a[k] = v
